@@ -4,6 +4,7 @@
 (***************************************************************************)
 EXTENDS MxjMapGen, MxjPath, Json
 CONSTANTS DoEmit
+AK0 == {k \in Keys : Len(k) > 1 /\ SubSeq(k, 1, 1) = "-"}       \* the attribute keys of the alphabet (prefix "-")
 RECURSIVE NoEmptyKey(_)
 NoEmptyKey(n) == IF IsMap(n) THEN "" \notin DOMAIN n.kv /\ \A k \in DOMAIN n.kv : NoEmptyKey(n.kv[k])
                  ELSE IF IsList(n) THEN \A i \in 1..Len(n.it) : NoEmptyKey(n.it[i]) ELSE TRUE
@@ -13,17 +14,19 @@ NonAttrScalars(n, AK) ==
   IF IsMap(n) THEN SumSeq([i \in 1..Len(KeySeq(n)) |-> IF KeySeq(n)[i] \in AK THEN 0 ELSE NonAttrScalars(n.kv[KeySeq(n)[i]], AK)])
   ELSE IF IsList(n) THEN SumSeq([i \in 1..Len(n.it) |-> NonAttrScalars(n.it[i], AK)]) ELSE 1
 
-ThmOnePerScalar == \A dot \in BOOLEAN : Len(LeafSeq(m, FALSE, dot, {"-x"}, "#text")) = ScalarCount(m)
+ThmOnePerScalar == \A dot \in BOOLEAN : Len(LeafSeq(m, FALSE, dot, AK0, "#text")) = ScalarCount(m)
 ThmResolves == NoEmptyKey(m) => LeafResolveThm(m)
 ThmNoAttr == \A dot \in BOOLEAN :
-    /\ Len(LeafSeq(m, TRUE, dot, {"-x"}, "#text")) = NonAttrScalars(m, {"-x"})   \* removes exactly the attribute entries
+    /\ Len(LeafSeq(m, TRUE, dot, AK0, "#text")) = NonAttrScalars(m, AK0)   \* removes exactly the attribute entries
     /\ Len(LeafSeq(m, TRUE, dot, {}, "#text")) = ScalarCount(m)                   \* no prefix: only the text-key segment goes
 
 LCase(na, dot, ak) == [na |-> na, dot |-> dot, ak |-> SetToSeq(ak), r |-> LeafSeq(m, na, dot, ak, "#text")]
 Emit == DoEmit => PrintT(ToJson([f |-> "leaf", m |-> m,
-           cs |-> SetToSeq({LCase(na, dot, ak) : na \in BOOLEAN, dot \in BOOLEAN, ak \in {{"-x"}, {}}})]))
+           cs |-> SetToSeq({LCase(na, dot, ak) : na \in BOOLEAN, dot \in BOOLEAN, ak \in {AK0, {}}})]))
 Spec == GenSpec
 cScalars == {VS("x"), VS("y")}
 cConts == {EmptyMap, EmptyList}
 cScalarsNil == {VS("x"), VNil}        \* a null member is a terminal value like any other (listed once, its path resolves to exactly [nil])
+\* placeholder alphabets (check.py SUBST)
+cScalarsLong == {VS("x"), VS("^")}
 =============================================================================
